@@ -7,6 +7,8 @@ package main
 import (
 	"errors"
 	"io"
+	"runtime"
+	"runtime/debug"
 	"time"
 
 	"github.com/cloudwego/gopkg/bufiox"
@@ -303,8 +305,21 @@ func c02Run(in V) V {
 		return &c02Src{data: data, final: fin, with: with, chunks: append([]int(nil), chunks...)}
 	}
 
+	stall := false // a run of >= 100 empty reads makes bufiox give up (io.ErrNoProgress)
+	run := 0
+	for _, c := range chunks {
+		if c == 0 {
+			run++
+			if run >= 100 {
+				stall = true
+			}
+		} else {
+			run = 0
+		}
+	}
+
 	// 1. Binary.Skip
-	oBS, _ := c02Guard(0, func() (VL, int) {
+	oBS, _ := c02Guard(0, len(vals), false, func() (VL, int) {
 		var o VL
 		off := 0
 		for _, v := range vals {
@@ -320,7 +335,7 @@ func c02Run(in V) V {
 	})
 
 	// 2. BufferReader.Skip over a bufiox reader
-	oBR, fBR := c02Guard(1, func() (VL, int) {
+	oBR, fBR := c02Guard(1, len(vals), stall, func() (VL, int) {
 		var o VL
 		r := bufiox.NewDefaultReader(newSrc())
 		br := thrift.NewBufferReader(r)
@@ -344,7 +359,7 @@ func c02Run(in V) V {
 	})
 
 	// 3. SkipDecoder over a bufiox reader
-	oSD, fSD := c02Guard(2, func() (VL, int) {
+	oSD, fSD := c02Guard(2, len(vals), stall, func() (VL, int) {
 		var o VL
 		r := bufiox.NewDefaultReader(newSrc())
 		d := thrift.NewSkipDecoder(r)
@@ -368,7 +383,7 @@ func c02Run(in V) V {
 	})
 
 	// 4. BytesSkipDecoder
-	oBSD, fBSD := c02Guard(3, func() (VL, int) {
+	oBSD, fBSD := c02Guard(3, len(vals), false, func() (VL, int) {
 		var o VL
 		d := thrift.NewBytesSkipDecoder(data[:len(data):len(data)])
 		defer func() { d.Release() }()
@@ -393,7 +408,7 @@ func c02Run(in V) V {
 	})
 
 	// 5. ReaderSkipDecoder over the scripted io.Reader itself
-	oRSD, fRSD := c02Guard(4, func() (VL, int) {
+	oRSD, fRSD := c02Guard(4, len(vals), false, func() (VL, int) {
 		var o VL
 		src := newSrc()
 		var d *thrift.ReaderSkipDecoder
@@ -428,10 +443,20 @@ func c02Run(in V) V {
 // failure of the property); that skipper is not run again in this process, the goroutine
 // stuck inside it cannot be stopped.
 var c02Hung [5]bool
+var c02Dev [5]int
 
-func c02Guard(i int, f func() (VL, int)) (VL, int) {
+// c02Guard runs one skipper on one case.  [want] is the number of values: when the skipper
+// (on a script that cannot stall) did not skip them all with follow-up bytes in place, the
+// case is a deviation: memory is returned to the OS (a mis-skipped stream makes the stream
+// decoders allocate whatever "length" they read next), and after 10 deviations the skipper is
+// not run any more in this process and reports (-97) — the deviating cases themselves are
+// reported in full.
+func c02Guard(i int, want int, lenient bool, f func() (VL, int)) (VL, int) {
 	if c02Hung[i] {
 		return VL{Ls(I(-98))}, 0
+	}
+	if c02Dev[i] >= 10 {
+		return VL{Ls(I(-97))}, 0
 	}
 	type res struct {
 		o  VL
@@ -451,6 +476,23 @@ func c02Guard(i int, f func() (VL, int)) (VL, int) {
 	}()
 	select {
 	case r := <-ch:
+		bad := r.pv != nil || len(r.o) != want || (i != 0 && r.fl != 1)
+		for _, it := range r.o {
+			l := AsList(it)
+			if AsInt(l[0]) != 0 {
+				bad = true // an error (or -97/-98)
+			} else if i >= 2 {
+				if _, same := l[1].(VI); !same {
+					bad = true // returned bytes differ from the encoding
+				}
+			}
+		}
+		if bad && !lenient {
+			c02Dev[i]++
+			runtime.GC()
+			runtime.GC()
+			debug.FreeOSMemory()
+		}
 		if r.pv != nil {
 			panic(r.pv)
 		}
